@@ -23,6 +23,7 @@ PlanQuick == Cross \o <<
   E("cfg",    {1, 2, 3, 4, 5, 6, 7, 8}, {" "}, 2, 1),
   E("jscore", {2, 3, 4, 5, 6, 7, 8}, {" "}, 2, 1),
   E("jsdecl", {2, 3, 4, 5, 6, 7, 8}, {" "}, 2, 1),
+  E("jsdecl", {2, 3}, {" "}, 3, 2),
   E("jslit",  {2, 3, 6}, {" "}, 2, 1),
   E("ts",     {2, 3, 4, 5, 6}, {" "}, 2, 1),
   E("cssa",   {2, 3, 4, 5}, {" "}, 2, 1),
